@@ -2,12 +2,14 @@ import Isotp.Process
 /-
   Helper definitions and lemmas for C04 (flow control obeyed, sender terminates) and
   C08 (STmin honoured): a phase decomposition of `processTx` (`_process_tx`), facts about
-  `handleFc`, `transmitCf`, the timers, and the transmit-side invariants.
+  `handleFc`, `transmitCf`, the timers, the transmit-side invariants (`TxWf`, `Coupled`, `SepInv`),
+  the block-size monitor, and stability of invariants under the loops of `process()`.
+  Everything lives in namespace `Isotp.Fc` (function-call notation `txView s`, `allowedNow s`).
 -/
-namespace Isotp
-namespace State
+namespace Isotp.Fc
+open Isotp State
 
-/-! ### Phase decomposition of `processTx` (case: no Flow Control to send) -/
+/-! ### Phase decomposition of `processTx` -/
 
 /-- Phase 1: the mailbox `last_flow_control_frame` is consumed.
     Second component `true` = the Overflow branch (the function returns at once). -/
@@ -84,7 +86,7 @@ theorem processTx_eq (s : State) :
       match fcSendPhase s with
       | (s1, some none) => (s1, none, false)
       | (s1, some (some msg)) => (s1, some msg, true)
-      | (s1, none) => txPhases s1 s.allowedNow := by
+      | (s1, none) => txPhases s1 (allowedNow s) := by
   set_option linter.unusedSimpArgs false in
   cases hfc : s.lastFc with
   | none =>
@@ -166,7 +168,7 @@ theorem fcSendPhase_not_pending {s : State} (h : s.pendingFc = false) : fcSendPh
   simp [fcSendPhase, h]
 
 theorem processTx_eq_of_not_pending (s : State) (h : s.pendingFc = false) :
-    s.processTx = txPhases s s.allowedNow := by
+    s.processTx = txPhases s (allowedNow s) := by
   rw [processTx_eq, fcSendPhase_not_pending h]
 
 /-- The state on which the state machine of `_process_tx` runs in this call; `none` when the call
@@ -193,7 +195,7 @@ def EmitsCf (s : State) (msg : CanMsg) : Prop :=
   cfBranch s = true ∧ s.processTx.2.1 = some msg
 
 theorem processTx_of_preFsm {s s3 : State} (h : preFsm s = some s3) :
-    s.processTx = finish (fsm s3 s.allowedNow) := by
+    s.processTx = finish (fsm s3 (allowedNow s)) := by
   rw [processTx_eq]
   unfold preFsm at h
   unfold txPhases
@@ -207,7 +209,7 @@ theorem preFsm_of_not_pending {s : State} (h : s.pendingFc = false) :
   simp [preFsm, fcSendPhase_not_pending h]
 
 /-! ### Flow Control decoding (STmin byte) -/
-end State
+
 
 theorem validStmin_iff (b : Nat) : validStmin b = true ↔ b ≤ 0x7F ∨ (0xF1 ≤ b ∧ b ≤ 0xF9) := by
   simp [validStmin]
@@ -255,7 +257,7 @@ theorem decode_fc {data : Bytes} {n : Nat} {d : Decoded} {st bs stm : Nat}
       subst hp
       exact ⟨(decodeBody_fc hp').1, (decodeBody_fc hp').2.1⟩
 
-namespace State
+
 
 /-! ### `_process_rx` and the transmit side -/
 
@@ -265,13 +267,13 @@ def txView (s : State) :=
   (s.txState, s.active, s.standby, s.timerFc, s.timerStmin, s.remoteBs, s.txBlockCnt, s.now, s.cfg,
    s.txQueue, s.wftCnt, s.addr, s.rl, s.txSeq, s.txFrameLen)
 
-theorem processRx_txView (s : State) (m : CanMsg) : (s.processRx m).1.txView = s.txView := by
+theorem processRx_txView (s : State) (m : CanMsg) : txView (s.processRx m).1 = txView s := by
   unfold processRx startReception txView
   grind (splits := 40) [deliver, stopReceiving, State.error, emit, requestFc, startRxCfTimer]
 
 /-- phase 0 (sending a Flow Control) leaves the transmit side and the mailbox alone -/
 theorem fcSendPhase_txView (s : State) :
-    (fcSendPhase s).1.txView = s.txView ∧ (fcSendPhase s).1.lastFc = s.lastFc ∧
+    txView (fcSendPhase s).1 = txView s ∧ (fcSendPhase s).1.lastFc = s.lastFc ∧
     (fcSendPhase s).1.pendingFc = false := by
   unfold fcSendPhase txView
   grind [State.raise, startRxCfTimer]
@@ -479,7 +481,7 @@ theorem TxWf_stopSending (s : State) (b : Bool) : TxWf (s.stopSending b) := by
   unfold stopSending TxWf
   cases s.active <;> simp [Timer.stop, emit]
 
-theorem TxWf_of_txView {s s' : State} (hv : s'.txView = s.txView) (h : TxWf s) : TxWf s' := by
+theorem TxWf_of_txView {s s' : State} (hv : txView s' = txView s) (h : TxWf s) : TxWf s' := by
   simp only [txView, Prod.mk.injEq] at hv
   unfold TxWf at *
   grind
@@ -622,5 +624,1255 @@ theorem TxWf_reset (s : State) : TxWf s.reset := by
   unfold reset
   exact TxWf_stopSending _ _
 
-end State
-end Isotp
+/-! ### Block-size budget monitor -/
+
+/-- what one call of `processTx` does, as seen by the block-size monitor -/
+inductive TxEv where
+  /-- a Single Frame or First Frame was handed out: a new message starts -/
+  | startSent
+  /-- a ContinueToSend with block size `bs` was read from the mailbox -/
+  | fcRead (bs : Nat)
+  /-- a Consecutive Frame was handed out -/
+  | cfSent
+  deriving DecidableEq, Repr
+
+/-- number of Consecutive Frames the sender may still emit; `none` = unlimited (BS = 0) -/
+abbrev Budget := Option Nat
+
+def grant (bs : Nat) : Budget := if bs = 0 then none else some bs
+
+def Budget.sup : Budget → Budget → Budget
+  | some a, some b => some (max a b)
+  | _, _ => none
+
+def Budget.ge (b : Budget) (n : Nat) : Prop :=
+  match b with
+  | none => True
+  | some m => n ≤ m
+
+/-- the monitor of the property text: FF/SF → 0; CTS(BS) → max; CF → violation at 0, else −1 -/
+def monStep (b : Budget) : TxEv → Option Budget
+  | .startSent => some (some 0)
+  | .fcRead bs => some (Budget.sup b (grant bs))
+  | .cfSent =>
+    match b with
+    | none => some none
+    | some 0 => none
+    | some (n + 1) => some (some n)
+
+def monRun : Budget → List TxEv → Option Budget
+  | b, [] => some b
+  | b, e :: es =>
+    match monStep b e with
+    | none => none
+    | some b' => monRun b' es
+
+/-- coupling between the model state and the monitor budget -/
+def Coupled (s : State) (b : Budget) : Prop :=
+  s.txState = .transmitCf →
+    ∃ bs, s.remoteBs = some bs ∧ b.ge 1 ∧ (bs = 0 → b = none) ∧ (s.txBlockCnt < bs → b.ge (bs - s.txBlockCnt))
+
+theorem Budget.ge_mono {b : Budget} {n m : Nat} (h : b.ge n) (hm : m ≤ n) : b.ge m := by
+  cases b with
+  | none => trivial
+  | some k => simp only [Budget.ge] at *; omega
+
+theorem Budget.sup_ge_left {a b : Budget} {n : Nat} (h : a.ge n) : (a.sup b).ge n := by
+  cases a <;> cases b <;> simp only [Budget.sup, Budget.ge] at * <;> omega
+
+theorem Budget.sup_none_left (b : Budget) : Budget.sup none b = none := by cases b <;> rfl
+theorem Budget.sup_none_right (b : Budget) : Budget.sup b none = none := by cases b <;> rfl
+
+theorem Budget.sup_grant_ge (a : Budget) {bs : Nat} : (a.sup (grant bs)).ge bs := by
+  unfold grant
+  cases a <;> by_cases h : bs = 0 <;> simp [Budget.sup, Budget.ge, h] <;> omega
+
+theorem Coupled_sup {s : State} {b : Budget} (c : Budget) (h : Coupled s b) : Coupled s (b.sup c) := by
+  intro hs
+  obtain ⟨bs, h1, h2, h3, h4⟩ := h hs
+  refine ⟨bs, h1, Budget.sup_ge_left h2, ?_, fun hlt => Budget.sup_ge_left (h4 hlt)⟩
+  intro h0
+  rw [h3 h0, Budget.sup_none_left]
+
+theorem Coupled_of_not_cf {s : State} (b : Budget) (h : s.txState ≠ .transmitCf) : Coupled s b :=
+  fun hs => absurd hs h
+
+/-- numeric content of one TRANSMIT_CF pass -/
+theorem transmitCf_block (s : State) (allowed bs : Nat) (hb : s.remoteBs = some bs) :
+    let r := s.transmitCf allowed
+    (r.1.txState = .transmitCf ∨ r.1.txState = s.txState ∨ r.1.txState = .idle ∨ r.1.txState = .waitFc) ∧
+    (r.1.txState = .transmitCf →
+      r.1.remoteBs = some bs ∧ (r.2.1 = none → r.1.txBlockCnt = s.txBlockCnt) ∧
+      (r.2.1.isSome → r.1.txBlockCnt = s.txBlockCnt + 1 ∧ (bs = 0 ∨ s.txBlockCnt + 1 < bs))) := by
+  unfold transmitCf
+  grind (splits := 30) [consumeActive_fst, stopSending, State.error, emit, State.raise, startRxFcTimer,
+    Timer.startAt, Timer.stop]
+
+
+theorem Coupled_congr {s s' : State} {b : Budget} (h1 : s'.txState = s.txState)
+    (h2 : s'.remoteBs = s.remoteBs) (h3 : s'.txBlockCnt = s.txBlockCnt) (h : Coupled s b) : Coupled s' b := by
+  unfold Coupled at *
+  rw [h1, h2, h3]; exact h
+
+theorem Coupled_transmitCf (s : State) (a : Nat) (b : Budget) (h : Coupled s b) (hs : s.txState = .transmitCf) :
+    Coupled (s.transmitCf a).1 b ∧
+    ((s.transmitCf a).2.1.isSome → ∃ b', monStep b .cfSent = some b' ∧ Coupled (s.transmitCf a).1 b') := by
+  obtain ⟨bs, h1, h2, h3, h4⟩ := h hs
+  have k := (transmitCf_block s a bs h1).2
+  constructor
+  · intro hs'
+    obtain ⟨k1, k2, k3⟩ := k hs'
+    refine ⟨bs, k1, h2, h3, ?_⟩
+    intro hlt
+    cases ho : (s.transmitCf a).2.1 with
+    | none => rw [k2 ho] at hlt ⊢; exact h4 hlt
+    | some m =>
+      have := (k3 (by simp [ho])).1
+      rw [this] at hlt ⊢
+      exact Budget.ge_mono (h4 (by omega)) (by omega)
+  · intro ho
+    cases b with
+    | none =>
+      refine ⟨none, rfl, ?_⟩
+      intro hs'
+      obtain ⟨k1, _, _⟩ := k hs'
+      exact ⟨bs, k1, trivial, fun _ => rfl, fun _ => trivial⟩
+    | some m =>
+      simp only [Budget.ge] at h2
+      obtain ⟨n, rfl⟩ : ∃ n, m = n + 1 := ⟨m - 1, by omega⟩
+      refine ⟨some n, rfl, ?_⟩
+      intro hs'
+      obtain ⟨k1, _, k3⟩ := k hs'
+      obtain ⟨k4, k5⟩ := k3 ho
+      have hbs : bs ≠ 0 := fun h0 => by simpa using h3 h0
+      have hlt : s.txBlockCnt + 1 < bs := by omega
+      have := h4 (by omega)
+      simp only [Budget.ge] at this
+      refine ⟨bs, k1, ?_, fun h0 => absurd h0 hbs, ?_⟩
+      · simp only [Budget.ge]; omega
+      · intro _; simp only [Budget.ge]; omega
+
+/-- budget after the mailbox was read: a ContinueToSend(BS) raises it to at least BS -/
+def fcBudget (fc : Option FcFrame) (b : Budget) : Budget :=
+  match fc with
+  | some fc => if fc.status = 0 then b.sup (grant fc.bs) else b
+  | none => b
+
+theorem handleFc_not_cts (s : State) (fc : FcFrame) (h0 : fc.status ≠ 0)
+    (h : (s.handleFc fc).txState = .transmitCf) :
+    s.txState = .transmitCf ∧ (s.handleFc fc).remoteBs = s.remoteBs ∧ (s.handleFc fc).txBlockCnt = s.txBlockCnt := by
+  unfold handleFc at *
+  grind [stopSending, State.error, emit, startRxFcTimer]
+
+theorem Coupled_stopSending (s : State) (ok : Bool) (b : Budget) : Coupled (s.stopSending ok) b := by
+  apply Coupled_of_not_cf
+  unfold stopSending
+  cases s.active <;> simp
+
+theorem Coupled_afterFc (s : State) (b : Budget) (h : Coupled s b) :
+    Coupled (afterFc s).1 (fcBudget s.lastFc b) := by
+  unfold afterFc fcBudget
+  cases hfc : s.lastFc with
+  | none => exact Coupled_congr rfl rfl rfl h
+  | some fc =>
+    simp only []
+    have h0 : Coupled ({ s with lastFc := none } : State) b := Coupled_congr rfl rfl rfl h
+    generalize ({ s with lastFc := none } : State) = s0 at h0 ⊢
+    by_cases h2 : fc.status = 2
+    · simp only [h2, if_true]
+      have : ¬ (2 = 0) := by omega
+      simp only [this, if_false]
+      exact Coupled_congr (s := s0.stopSending false) rfl rfl rfl (Coupled_stopSending _ _ _)
+    · simp only [h2, if_false]
+      by_cases hst : fc.status = 0
+      · simp only [hst, if_true]
+        by_cases hh : ctsHonoured s0 fc = true
+        · rw [handleFc_cts s0 fc hh]
+          intro _
+          refine ⟨fc.bs, rfl, ?_, ?_, ?_⟩
+          · by_cases hz : fc.bs = 0
+            · simp [grant, hz, Budget.sup_none_right, Budget.ge]
+            · exact Budget.ge_mono (Budget.sup_grant_ge b) (by omega)
+          · intro hz; simp [grant, hz, Budget.sup_none_right]
+          · intro _; exact Budget.ge_mono (Budget.sup_grant_ge b) (by omega)
+        · by_cases hi : s0.txState = .idle
+          · rw [handleFc_idle s0 fc hi]
+            exact Coupled_of_not_cf _ (by simp [State.error, emit, hi])
+          · rw [handleFc_cts_ignored s0 fc hst hi (by simpa using hh)]
+            exact Coupled_sup _ h0
+      · simp only [hst, if_false]
+        intro hs'
+        obtain ⟨k1, k2, k3⟩ := handleFc_not_cts s0 fc hst hs'
+        unfold Coupled at h0
+        rw [k2, k3]
+        exact h0 k1
+
+theorem Coupled_afterTimeout (s : State) (b : Budget) (h : Coupled s b) : Coupled (afterTimeout s) b := by
+  unfold afterTimeout
+  split
+  · exact Coupled_stopSending _ _ _
+  · exact h
+
+theorem ite_pred {P : State → Prop} {c : Prop} [Decidable c] {a b : State} (ha : P a) (hb : P b) :
+    P (if c then a else b) := by
+  split <;> assumption
+
+theorem Coupled_afterDepleted (s : State) (b : Budget) (h : Coupled s b) : Coupled (afterDepleted s) b :=
+  ite_pred (P := fun x => Coupled x b) (Coupled_stopSending _ _ _) h
+
+/-- First/Single Frame handling never lands in TRANSMIT_CF -/
+theorem startTx_txState (s : State) (r : Req) (allowed : Nat) (hi : s.txState ≠ .transmitCf) :
+    (s.startTx r allowed).1.txState ≠ .transmitCf := by
+  unfold startTx
+  grind (splits := 30) [consumeActive_fst, stopSending, State.error, emit, State.raise, startRxFcTimer]
+
+theorem readTxQueue_txState (s : State) (allowed : Nat) (q : List Req) (hi : s.txState ≠ .transmitCf) :
+    (s.readTxQueue allowed q).1.txState ≠ .transmitCf := by
+  induction q generalizing s with
+  | nil => exact hi
+  | cons r rest ih =>
+    unfold readTxQueue
+    simp only []
+    split
+    · apply ih; simpa [emit] using hi
+    · apply startTx_txState; simpa using hi
+
+theorem fsm_not_cf (s : State) (a : Nat) (h : s.txState ≠ .transmitCf) : (fsm s a).1.txState ≠ .transmitCf := by
+  unfold fsm
+  split
+  · exact readTxQueue_txState _ _ _ h
+  · grind [startRxFcTimer, stopSending]
+  · grind [startRxFcTimer, stopSending]
+  · exact h
+  · contradiction
+
+theorem fsm_cf (s : State) (a : Nat) (h : s.txState = .transmitCf) : fsm s a = s.transmitCf a := by
+  unfold fsm
+  simp [h]
+
+theorem finish_fields (r : State × Option CanMsg × Bool) :
+    (finish r).1.txState = r.1.txState ∧ (finish r).1.remoteBs = r.1.remoteBs ∧
+    (finish r).1.txBlockCnt = r.1.txBlockCnt ∧ ((finish r).2.1 = r.2.1 ∨ (finish r).2.1 = none) := by
+  unfold finish
+  split
+  · simp
+  · split <;> simp_all
+
+
+/-- this call runs the TRANSMIT_CF branch (as `cfBranch`, on the state left by phase 0) -/
+def cfBranchAt (s1 : State) : Bool :=
+  if (afterFc s1).2 then false
+  else
+    let s2 := afterTimeout (afterFc s1).1
+    if s2.txState ≠ .idle && s2.active.isNone then false else (afterDepleted s2).txState = .transmitCf
+
+theorem monitor_txPhases (s1 : State) (a : Nat) (b : Budget) (h : Coupled s1 b) :
+    Coupled (txPhases s1 a).1 (fcBudget s1.lastFc b) ∧
+    ((txPhases s1 a).2.1.isSome → cfBranchAt s1 = true →
+      ∃ b', monStep (fcBudget s1.lastFc b) .cfSent = some b' ∧ Coupled (txPhases s1 a).1 b') ∧
+    ((txPhases s1 a).2.1.isSome → cfBranchAt s1 = false → (txPhases s1 a).1.txState ≠ .transmitCf) := by
+  have h1 := Coupled_afterFc s1 b h
+  generalize fcBudget s1.lastFc b = b1 at h1 ⊢
+  unfold txPhases cfBranchAt
+  by_cases hA : (afterFc s1).2 = true
+  · simp only [hA, if_true]
+    exact ⟨h1, by simp, by simp⟩
+  · simp only [hA]
+    have h2 := Coupled_afterTimeout _ _ h1
+    generalize afterTimeout (afterFc s1).1 = s2 at h2 ⊢
+    by_cases hB : (s2.txState ≠ .idle && s2.active.isNone) = true
+    · simp only [hB, if_true, Bool.false_eq_true, if_false]
+      exact ⟨Coupled_congr (s := s2) rfl rfl rfl h2, by simp, by simp⟩
+    · simp only [hB, Bool.false_eq_true, if_false]
+      have h3 := Coupled_afterDepleted _ _ h2
+      generalize afterDepleted s2 = s3 at h3 ⊢
+      obtain ⟨f1, f2, f3, f4⟩ := finish_fields (fsm s3 a)
+      by_cases hC : s3.txState = .transmitCf
+      · rw [fsm_cf s3 a hC] at f1 f2 f3 f4 ⊢
+        obtain ⟨c1, c2⟩ := Coupled_transmitCf s3 a b1 h3 hC
+        refine ⟨Coupled_congr f1 f2 f3 c1, ?_, by simp [hC]⟩
+        intro ho _
+        have ho' : (s3.transmitCf a).2.1.isSome := by
+          rcases f4 with f4 | f4
+          · rw [← f4]; exact ho
+          · rw [f4] at ho; simp at ho
+        obtain ⟨b', m1, m2⟩ := c2 ho'
+        exact ⟨b', m1, Coupled_congr f1 f2 f3 m2⟩
+      · have := fsm_not_cf s3 a hC
+        refine ⟨Coupled_of_not_cf _ (by rw [f1]; exact this), by simp [hC], ?_⟩
+        intro _ _
+        rw [f1]; exact this
+
+/-- the monitor events of one `processTx` call -/
+def txEvents (s : State) : List TxEv :=
+  match (fcSendPhase s).2 with
+  | some _ => []
+  | none =>
+    (match s.lastFc with
+      | some fc => if fc.status = 0 then [.fcRead fc.bs] else []
+      | none => []) ++
+    (match s.processTx.2.1 with
+      | none => []
+      | some _ => if cfBranch s then [.cfSent] else [.startSent])
+
+theorem cfBranch_eq (s : State) :
+    cfBranch s = (match fcSendPhase s with | (s1, none) => cfBranchAt s1 | _ => false) := by
+  unfold cfBranch preFsm cfBranchAt
+  grind
+
+theorem monRun_fc (b : Budget) (fc : Option FcFrame) (es : List TxEv) :
+    monRun b ((match fc with
+      | some fc => if fc.status = 0 then [.fcRead fc.bs] else []
+      | none => []) ++ es) = monRun (fcBudget fc b) es := by
+  cases fc with
+  | none => rfl
+  | some fc =>
+    by_cases h : fc.status = 0 <;> simp [fcBudget, h, monRun, monStep]
+
+/-- **Monitor step theorem**: one `processTx` call never violates the block-size monitor and
+    re-establishes the coupling. -/
+theorem monitor_step (s : State) (b : Budget) (h : Coupled s b) :
+    ∃ b', monRun b (txEvents s) = some b' ∧ Coupled s.processTx.1 b' := by
+  have hv := fcSendPhase_txView s
+  have hcb := cfBranch_eq s
+  unfold txEvents
+  rw [hcb, processTx_eq]
+  generalize hx : fcSendPhase s = x at hv hcb ⊢
+  obtain ⟨s1, o⟩ := x
+  have hc1 : Coupled s1 b := by
+    have := hv.1
+    simp only [txView, Prod.mk.injEq] at this
+    exact Coupled_congr this.1 this.2.2.2.2.2.1 this.2.2.2.2.2.2.1 h
+  rcases o with _ | _ | m
+  · simp only []
+    rw [← hv.2.1, monRun_fc]
+    obtain ⟨m1, m2, m3⟩ := monitor_txPhases s1 (allowedNow s) b hc1
+    cases ho : (txPhases s1 (allowedNow s)).2.1 with
+    | none => exact ⟨_, rfl, m1⟩
+    | some msg =>
+      rw [ho] at m2 m3
+      by_cases hcf : cfBranchAt s1 = true
+      · obtain ⟨b', k1, k2⟩ := m2 rfl hcf
+        refine ⟨b', ?_, k2⟩
+        simp [hcf, monRun, k1]
+      · have hcf' : cfBranchAt s1 = false := by simpa using hcf
+        refine ⟨some 0, ?_, Coupled_of_not_cf _ (m3 rfl hcf')⟩
+        simp [hcf', monRun, monStep]
+  · exact ⟨b, rfl, hc1⟩
+  · exact ⟨b, rfl, hc1⟩
+
+/-! ### Separation time: what never changes in the FSM, and the `SepInv` invariant -/
+
+/-- fields the state machine part of `_process_tx` never modifies -/
+def constView (s : State) := (s.now, s.cfg, s.addr, s.timerStmin.timeout)
+
+theorem stopSending_constView (s : State) (ok : Bool) : constView (s.stopSending ok) = constView s := by
+  unfold stopSending constView
+  cases s.active <;> simp [Timer.stop, emit]
+
+theorem startTx_constView (s : State) (r : Req) (allowed : Nat) :
+    constView (s.startTx r allowed).1 = constView s := by
+  unfold startTx constView
+  grind (splits := 30) [consumeActive_fst, stopSending, State.error, emit, State.raise, startRxFcTimer, Timer.stop]
+
+theorem readTxQueue_constView (s : State) (allowed : Nat) (q : List Req) :
+    constView (s.readTxQueue allowed q).1 = constView s := by
+  induction q generalizing s with
+  | nil => rfl
+  | cons r rest ih =>
+    unfold readTxQueue
+    simp only []
+    split
+    · rw [ih]; rfl
+    · rw [startTx_constView]; rfl
+
+theorem transmitCf_constView (s : State) (allowed : Nat) :
+    constView (s.transmitCf allowed).1 = constView s := by
+  unfold transmitCf constView
+  grind (splits := 30) [consumeActive_fst, stopSending, State.error, emit, State.raise, startRxFcTimer,
+    Timer.startAt, Timer.stop]
+
+theorem fsm_constView (s : State) (a : Nat) : constView (fsm s a).1 = constView s := by
+  unfold fsm
+  split
+  · exact readTxQueue_constView _ _ _
+  · unfold constView; grind [startRxFcTimer, stopSending, Timer.stop, emit]
+  · unfold constView; grind [startRxFcTimer, stopSending, Timer.stop, emit]
+  · rfl
+  · exact transmitCf_constView _ _
+
+theorem finish_constView (r : State × Option CanMsg × Bool) : constView (finish r).1 = constView r.1 := by
+  unfold finish
+  split
+  · rfl
+  · split <;> rfl
+
+theorem afterTimeout_constView (s : State) : constView (afterTimeout s) = constView s := by
+  unfold afterTimeout
+  split
+  · rw [stopSending_constView]; rfl
+  · rfl
+
+theorem afterDepleted_constView (s : State) : constView (afterDepleted s) = constView s :=
+  ite_pred (P := fun x => constView x = constView s) (stopSending_constView _ _) rfl
+
+
+/-- `t` = hand-over time of the previous Consecutive Frame of the message in progress:
+    the clock is past it and, in TRANSMIT_CF, the STmin timer was (re)started at or after it. -/
+def SepInv (s : State) (t : Nat) : Prop :=
+  t ≤ s.now ∧ (s.txState = .transmitCf → ∃ t0, s.timerStmin.start = some t0 ∧ t ≤ t0)
+
+theorem SepInv_of_eq {s s' : State} {t : Nat} (h1 : s'.now = s.now) (h2 : s'.txState = s.txState)
+    (h3 : s'.timerStmin.start = s.timerStmin.start) (h : SepInv s t) : SepInv s' t := by
+  unfold SepInv at *
+  rw [h1, h2, h3]; exact h
+
+theorem SepInv_of_txView {s s' : State} {t : Nat} (hv : txView s' = txView s) (h : SepInv s t) : SepInv s' t := by
+  simp only [txView, Prod.mk.injEq] at hv
+  exact SepInv_of_eq hv.2.2.2.2.2.2.2.1 hv.1 (by rw [hv.2.2.2.2.1]) h
+
+theorem SepInv_of_not_cf {s : State} {t : Nat} (h1 : t ≤ s.now) (h2 : s.txState ≠ .transmitCf) : SepInv s t :=
+  ⟨h1, fun h => absurd h h2⟩
+
+theorem stopSending_idle (s : State) (ok : Bool) :
+    (s.stopSending ok).txState = .idle ∧ (s.stopSending ok).active = none ∧ (s.stopSending ok).now = s.now ∧
+    (s.stopSending ok).txQueue = s.txQueue ∧ (s.stopSending ok).timerFc.start = none ∧
+    (s.stopSending ok).timerStmin.start = none ∧ (s.stopSending ok).standby = none := by
+  unfold stopSending
+  cases h : s.active <;> simp [Timer.stop, emit, h]
+
+theorem SepInv_stopSending (s : State) (ok : Bool) (t : Nat) (h : t ≤ s.now) : SepInv (s.stopSending ok) t := by
+  have := stopSending_idle s ok
+  exact SepInv_of_not_cf (by rw [this.2.2.1]; exact h) (by rw [this.1]; simp)
+
+theorem SepInv_handleFc (s : State) (fc : FcFrame) (t : Nat) (h : SepInv s t) : SepInv (s.handleFc fc) t := by
+  unfold SepInv at *
+  unfold handleFc
+  grind [stopSending, State.error, emit, startRxFcTimer, Timer.stop, Timer.startAt]
+
+theorem SepInv_afterFc (s : State) (t : Nat) (h : SepInv s t) : SepInv (afterFc s).1 t := by
+  have h0 : SepInv ({ s with lastFc := none } : State) t := h
+  unfold afterFc
+  simp only []
+  split
+  · split
+    · exact SepInv_stopSending _ _ _ h.1
+    · exact SepInv_handleFc _ _ _ h0
+  · exact h0
+
+theorem SepInv_afterTimeout (s : State) (t : Nat) (h : SepInv s t) : SepInv (afterTimeout s) t := by
+  unfold afterTimeout
+  split
+  · exact SepInv_stopSending _ _ _ h.1
+  · exact h
+
+theorem SepInv_afterDepleted (s : State) (t : Nat) (h : SepInv s t) : SepInv (afterDepleted s) t :=
+  ite_pred (P := fun x => SepInv x t) (SepInv_stopSending _ _ _ h.1) h
+
+theorem transmitCf_sep (s : State) (allowed : Nat) :
+    (s.transmitCf allowed).1.txState = .transmitCf →
+      s.txState = .transmitCf ∧
+      ((s.transmitCf allowed).1.timerStmin.start = s.timerStmin.start ∨
+       (s.transmitCf allowed).1.timerStmin.start = some s.now) := by
+  unfold transmitCf
+  grind (splits := 30) [consumeActive_fst, stopSending, State.error, emit, State.raise, startRxFcTimer,
+    Timer.startAt, Timer.stop]
+
+theorem SepInv_fsm (s : State) (a : Nat) (t : Nat) (h : SepInv s t) : SepInv (fsm s a).1 t := by
+  have hc := fsm_constView s a
+  simp only [constView, Prod.mk.injEq] at hc
+  by_cases hs : s.txState = .transmitCf
+  · rw [fsm_cf s a hs] at hc ⊢
+    refine ⟨by rw [hc.1]; exact h.1, ?_⟩
+    intro hs'
+    obtain ⟨_, k⟩ := transmitCf_sep s a hs'
+    obtain ⟨t0, e0, l0⟩ := h.2 hs
+    rcases k with k | k
+    · exact ⟨t0, by rw [k]; exact e0, l0⟩
+    · exact ⟨s.now, k, h.1⟩
+  · exact SepInv_of_not_cf (by rw [hc.1]; exact h.1) (fsm_not_cf s a hs)
+
+theorem SepInv_finish (r : State × Option CanMsg × Bool) (t : Nat) (h : SepInv r.1 t) : SepInv (finish r).1 t := by
+  unfold finish
+  split
+  · exact h
+  · split <;> exact h
+
+theorem SepInv_txPhases (s : State) (a : Nat) (t : Nat) (h : SepInv s t) : SepInv (txPhases s a).1 t := by
+  unfold txPhases
+  split
+  · exact SepInv_afterFc s t h
+  · simp only []
+    split
+    · exact SepInv_afterTimeout _ _ (SepInv_afterFc s t h)
+    · exact SepInv_finish _ _ (SepInv_fsm _ _ _ (SepInv_afterDepleted _ _ (SepInv_afterTimeout _ _ (SepInv_afterFc s t h))))
+
+/-- `SepInv` is kept by `_process_tx`, whether or not it emits a frame -/
+theorem SepInv_processTx (s : State) (t : Nat) (h : SepInv s t) : SepInv s.processTx.1 t := by
+  rw [processTx_eq]
+  have hv := SepInv_of_txView (fcSendPhase_txView s).1 h
+  generalize fcSendPhase s = x at hv ⊢
+  obtain ⟨s1, o⟩ := x
+  rcases o with _ | _ | _
+  · exact SepInv_txPhases _ _ _ hv
+  · exact hv
+  · exact hv
+
+theorem SepInv_processRx (s : State) (m : CanMsg) (t : Nat) (h : SepInv s t) : SepInv (s.processRx m).1 t :=
+  SepInv_of_txView (processRx_txView s m) h
+
+theorem SepInv_checkTimeoutsRx (s : State) (t : Nat) (h : SepInv s t) : SepInv s.checkTimeoutsRx t := by
+  unfold checkTimeoutsRx
+  split <;> exact h
+
+theorem SepInv_advance (s : State) (dt : Nat) (t : Nat) (h : SepInv s t) : SepInv (s.advance dt) t :=
+  ⟨Nat.le_trans h.1 (Nat.le_add_right _ _), h.2⟩
+
+theorem SepInv_send (s : State) (a : SendArgs) (t : Nat) (h : SepInv s t) : SepInv (s.send a).1 t := by
+  unfold send
+  simp only []
+  repeat' split
+  all_goals exact h
+
+theorem clearTxQueue_now (s : State) (q : List Req) : (s.clearTxQueue q).now = s.now := by
+  induction q generalizing s with
+  | nil => rfl
+  | cons r rest ih => unfold clearTxQueue; rw [ih]; rfl
+
+theorem SepInv_reset (s : State) (t : Nat) (h : SepInv s t) : SepInv s.reset t := by
+  unfold reset
+  refine SepInv_of_eq (s := (((({ s with rxQueue := [] } : State).clearTxQueue s.txQueue)).stopSending false)) rfl rfl rfl ?_
+  apply SepInv_stopSending
+  rw [clearTxQueue_now]; exact h.1
+
+
+/-! ### The separation time in force and the gap theorem -/
+
+theorem handleFc_now_cfg (s : State) (fc : FcFrame) :
+    (s.handleFc fc).now = s.now ∧ (s.handleFc fc).cfg = s.cfg := by
+  unfold handleFc
+  grind [stopSending, State.error, emit, startRxFcTimer]
+
+/-- STmin timeout once the mailbox content `fc?` has been handled in state `s` -/
+def sepAfterFc (s : State) (fc? : Option FcFrame) : Nat :=
+  match fc? with
+  | some fc => if ctsHonoured s fc then sepOf s.cfg fc else s.timerStmin.timeout
+  | none => s.timerStmin.timeout
+
+theorem afterFc_facts (s : State) :
+    (afterFc s).1.now = s.now ∧ (afterFc s).1.cfg = s.cfg ∧
+    (afterFc s).1.timerStmin.timeout = sepAfterFc s s.lastFc := by
+  unfold afterFc sepAfterFc
+  cases hfc : s.lastFc with
+  | none => simp
+  | some fc =>
+    simp only []
+    by_cases h2 : fc.status = 2
+    · have hv := stopSending_constView ({ s with lastFc := none } : State) false
+      simp only [constView, Prod.mk.injEq] at hv
+      have : ctsHonoured s fc = false := by simp [ctsHonoured, h2]
+      simp only [h2, if_true, this, Bool.false_eq_true, if_false]
+      exact ⟨hv.1, hv.2.1, hv.2.2.2⟩
+    · simp only [h2, if_false]
+      have := handleFc_now_cfg ({ s with lastFc := none } : State) fc
+      refine ⟨this.1, this.2, ?_⟩
+      rw [handleFc_stmin_timeout]
+      rfl
+
+/-- separation time in force once this call of `processTx` has handled the mailbox: the value of
+    the ContinueToSend honoured in this very call, else the value already in force -/
+def sepInForce (s : State) : Nat :=
+  match (fcSendPhase s).2 with
+  | none => sepAfterFc s s.lastFc
+  | some _ => s.timerStmin.timeout
+
+theorem sepAfterFc_congr {s s' : State} (hv : txView s' = txView s) (fc : Option FcFrame) :
+    sepAfterFc s' fc = sepAfterFc s fc := by
+  simp only [txView, Prod.mk.injEq] at hv
+  unfold sepAfterFc ctsHonoured
+  rw [hv.1, hv.2.2.2.1, hv.2.2.2.2.1, hv.2.2.2.2.2.2.2.1, hv.2.2.2.2.2.2.2.2.1]
+
+theorem txPhases_stmin_timeout (s : State) (a : Nat) :
+    (txPhases s a).1.timerStmin.timeout = sepAfterFc s s.lastFc := by
+  have hf := afterFc_facts s
+  unfold txPhases
+  split
+  · exact hf.2.2
+  · simp only []
+    have h2 := afterTimeout_constView (afterFc s).1
+    simp only [constView, Prod.mk.injEq] at h2
+    split
+    · exact h2.2.2.2.trans hf.2.2
+    · have h3 := afterDepleted_constView (afterTimeout (afterFc s).1)
+      have h4 := fsm_constView (afterDepleted (afterTimeout (afterFc s).1)) a
+      have h5 := finish_constView (fsm (afterDepleted (afterTimeout (afterFc s).1)) a)
+      simp only [constView, Prod.mk.injEq] at h3 h4 h5
+      rw [h5.2.2.2, h4.2.2.2, h3.2.2.2, h2.2.2.2, hf.2.2]
+
+/-- the STmin timeout only ever changes by an honoured ContinueToSend -/
+theorem processTx_stmin_timeout (s : State) : s.processTx.1.timerStmin.timeout = sepInForce s := by
+  have hv := fcSendPhase_txView s
+  unfold sepInForce
+  rw [processTx_eq]
+  generalize fcSendPhase s = x at hv ⊢
+  obtain ⟨s1, o⟩ := x
+  have ht : s1.timerStmin = s.timerStmin := by
+    have := hv.1
+    simp only [txView, Prod.mk.injEq] at this
+    exact this.2.2.2.2.1
+  rcases o with _ | _ | _
+  · simp only []
+    rw [txPhases_stmin_timeout, hv.2.1, sepAfterFc_congr hv.1]
+  · simp only []; rw [ht]
+  · simp only []; rw [ht]
+
+theorem processTx_now (s : State) : s.processTx.1.now = s.now := by
+  have hv := fcSendPhase_txView s
+  rw [processTx_eq]
+  generalize fcSendPhase s = x at hv ⊢
+  obtain ⟨s1, o⟩ := x
+  have ht : s1.now = s.now := by
+    have := hv.1
+    simp only [txView, Prod.mk.injEq] at this
+    exact this.2.2.2.2.2.2.2.1
+  rcases o with _ | _ | _
+  · simp only []
+    rw [← ht]
+    have hf := afterFc_facts s1
+    unfold txPhases
+    split
+    · exact hf.1
+    · simp only []
+      have h2 := afterTimeout_constView (afterFc s1).1
+      simp only [constView, Prod.mk.injEq] at h2
+      split
+      · exact h2.1.trans hf.1
+      · have h3 := afterDepleted_constView (afterTimeout (afterFc s1).1)
+        have h4 := fsm_constView (afterDepleted (afterTimeout (afterFc s1).1)) (allowedNow s)
+        have h5 := finish_constView (fsm (afterDepleted (afterTimeout (afterFc s1).1)) (allowedNow s))
+        simp only [constView, Prod.mk.injEq] at h3 h4 h5
+        rw [h5.1, h4.1, h3.1, h2.1, hf.1]
+  · exact ht
+  · exact ht
+
+theorem preFsm_facts {s s3 : State} {t : Nat} (h : preFsm s = some s3) (hinv : SepInv s t) :
+    SepInv s3 t ∧ s3.now = s.now ∧ s3.timerStmin.timeout = sepInForce s := by
+  have hv := fcSendPhase_txView s
+  unfold preFsm at h
+  unfold sepInForce
+  generalize fcSendPhase s = x at hv h ⊢
+  obtain ⟨s1, o⟩ := x
+  have hi1 := SepInv_of_txView hv.1 hinv
+  have ht : s1.now = s.now := by
+    have := hv.1
+    simp only [txView, Prod.mk.injEq] at this
+    exact this.2.2.2.2.2.2.2.1
+  rcases o with _ | _ | _
+  · simp only [] at h ⊢
+    have hf := afterFc_facts s1
+    have h2 := afterTimeout_constView (afterFc s1).1
+    have h3 := afterDepleted_constView (afterTimeout (afterFc s1).1)
+    simp only [constView, Prod.mk.injEq] at h2 h3
+    split at h
+    · cases h
+    · split at h
+      · cases h
+      · injection h with h
+        subst h
+        refine ⟨SepInv_afterDepleted _ _ (SepInv_afterTimeout _ _ (SepInv_afterFc _ _ hi1)), ?_, ?_⟩
+        · rw [h3.1, h2.1, hf.1, ht]
+        · rw [h3.2.2.2, h2.2.2.2, hf.2.2, hv.2.1, sepAfterFc_congr hv.1]
+  · simp at h
+  · simp at h
+
+/-- **Gap theorem.** If the previous Consecutive Frame of the message was handed over at time `t`
+    (`SepInv s t`) and this call hands over the next one, then strictly more than the separation
+    time in force has elapsed since `t` (or that separation time is zero); and the invariant is
+    re-established for the new hand-over time `s.now`. -/
+theorem gap_of_emits (s : State) (t : Nat) (msg : CanMsg) (hinv : SepInv s t) (hcf : EmitsCf s msg) :
+    (sepInForce s = 0 ∨ s.now - t > sepInForce s) ∧ SepInv s.processTx.1 s.now := by
+  obtain ⟨hb, ho⟩ := hcf
+  unfold cfBranch at hb
+  cases hp : preFsm s with
+  | none => simp [hp] at hb
+  | some s3 =>
+    simp only [hp, decide_eq_true_eq] at hb
+    obtain ⟨i3, n3, t3⟩ := preFsm_facts hp hinv
+    rw [processTx_of_preFsm hp, fsm_cf s3 _ hb] at ho ⊢
+    obtain ⟨f1, _, _, f4⟩ := finish_fields (s3.transmitCf (allowedNow s))
+    have hc := finish_constView (s3.transmitCf (allowedNow s))
+    simp only [constView, Prod.mk.injEq] at hc
+    have ho' : (s3.transmitCf (allowedNow s)).2.1 = some msg := by
+      rcases f4 with f4 | f4
+      · rw [← f4]; exact ho
+      · rw [f4] at ho; cases ho
+    generalize hr : s3.transmitCf (allowedNow s) = r at *
+    obtain ⟨s', out, imm⟩ := r
+    simp only at ho'
+    subst ho'
+    obtain ⟨k1, _, _, k4, k5, k6⟩ := transmitCf_some hr
+    obtain ⟨t0, e0, l0⟩ := i3.2 hb
+    constructor
+    · rw [← t3]
+      simp only [Timer.timedOut, e0, Bool.or_eq_true, decide_eq_true_eq, beq_iff_eq] at k1
+      rw [n3] at k1
+      rcases k1 with k1 | k1
+      · right; omega
+      · left; exact k1
+    · have hfin : (finish (s', some msg, imm)).1.timerStmin = s'.timerStmin := by
+        unfold finish; split <;> rfl
+      refine ⟨by rw [hc.1]; simp only; omega, ?_⟩
+      intro hs'
+      rw [f1] at hs'
+      simp only at hs'
+      rcases k6 with k6 | k6
+      · rw [k6] at hs'; cases hs'
+      · exact ⟨s.now, by rw [hfin, k6.1, n3], Nat.le_refl _⟩
+
+
+
+theorem Req.consume_spec (r : Req) (n : Nat) :
+    (r.consume n false).1.size = r.size ∧ (r.consume n false).1.id = r.id ∧
+    (∀ payload, (r.consume n false).2 = some payload →
+      (r.consume n false).1.consumed = r.consumed + payload.length ∧
+      (r.consume n false).1.consumed ≤ r.size ∧ payload.length ≤ n ∧
+      (payload.length < n → (r.consume n false).1.depleted = true)) := by
+  have hl : (r.src.take n).length ≤ n := List.length_take_le n r.src
+  generalize hd : r.src.take n = data at hl
+  unfold Req.consume
+  simp only [hd]
+  split
+  · simp
+  · split
+    · simp [Req.depleted]; omega
+    · simp; omega
+
+
+
+/-! ### Which states can run the TRANSMIT_CF branch -/
+
+theorem handleFc_to_cf (s : State) (fc : FcFrame) (hs : s.txState ≠ .transmitCf)
+    (h : (s.handleFc fc).txState = .transmitCf) : ctsHonoured s fc = true := by
+  unfold ctsHonoured
+  unfold handleFc at h
+  grind [stopSending, State.error, emit, startRxFcTimer]
+
+theorem afterTimeout_cf {s : State} (h : (afterTimeout s).txState = .transmitCf) :
+    afterTimeout s = s := by
+  unfold afterTimeout at *
+  split
+  · rename_i ht
+    simp only [ht, if_true] at h
+    rw [(stopSending_idle _ _).1] at h; cases h
+  · rfl
+
+/-- guard of phase 3 -/
+def depletedCond (s : State) : Bool :=
+  s.txState ≠ .idle && (match s.active with | some r => r.depleted | none => false) && s.standby.isNone
+
+theorem afterDepleted_eq (s : State) :
+    afterDepleted s = if depletedCond s then s.stopSending true else s := rfl
+
+theorem afterDepleted_cf {s : State} (h : (afterDepleted s).txState = .transmitCf) :
+    afterDepleted s = s := by
+  rw [afterDepleted_eq] at *
+  by_cases hc : depletedCond s = true
+  · simp only [hc, if_true] at h
+    rw [(stopSending_idle _ _).1] at h; cases h
+  · simp only [hc]; rfl
+
+theorem cfBranchAt_imp {s1 : State} (h : cfBranchAt s1 = true) :
+    (afterFc s1).2 = false ∧ (afterFc s1).1.txState = .transmitCf := by
+  unfold cfBranchAt at h
+  split at h
+  · cases h
+  · simp only [] at h
+    split at h
+    · cases h
+    · simp only [decide_eq_true_eq] at h
+      have h2 := afterDepleted_cf h
+      rw [h2] at h
+      have h3 := afterTimeout_cf h
+      rw [h3] at h
+      rename_i hA _
+      exact ⟨by simpa using hA, h⟩
+
+/-- A Consecutive Frame can only be built by a call that starts in TRANSMIT_CF, or that starts in
+    WAIT_FC and reads an honoured ContinueToSend from the mailbox. -/
+theorem cfBranch_cases (s : State) (h : cfBranch s = true) :
+    s.txState = .transmitCf ∨
+    (s.txState = .waitFc ∧ ∃ fc, s.lastFc = some fc ∧ ctsHonoured s fc = true) := by
+  have hv := fcSendPhase_txView s
+  rw [cfBranch_eq] at h
+  generalize fcSendPhase s = x at hv h
+  obtain ⟨s1, o⟩ := x
+  rcases o with _ | _ | _
+  · simp only [] at h
+    obtain ⟨hA, hB⟩ := cfBranchAt_imp h
+    have hv1 := hv.1
+    simp only [txView, Prod.mk.injEq] at hv1
+    by_cases hs : s.txState = .transmitCf
+    · exact Or.inl hs
+    · right
+      unfold afterFc at hA hB
+      rw [hv.2.1] at hA hB
+      cases hfc : s.lastFc with
+      | none => simp only [hfc] at hB; rw [hv1.1] at hB; exact absurd hB hs
+      | some fc =>
+        simp only [hfc] at hA hB
+        by_cases h2 : fc.status = 2
+        · simp [h2] at hA
+        · simp only [h2, if_false] at hB
+          have hs1 : ({ s1 with lastFc := none } : State).txState ≠ .transmitCf := by
+            simp only; rw [hv1.1]; exact hs
+          have hh := handleFc_to_cf _ fc hs1 hB
+          have hh' : ctsHonoured s fc = true := by
+            unfold ctsHonoured at hh ⊢
+            simp only at hh
+            rw [hv1.1, hv1.2.2.2.1, hv1.2.2.2.2.2.2.2.1] at hh
+            exact hh
+          refine ⟨?_, fc, rfl, hh'⟩
+          unfold ctsHonoured at hh'
+          simp only [Bool.and_eq_true, Bool.or_eq_true, decide_eq_true_eq] at hh'
+          rcases hh'.2 with h | h
+          · exact h
+          · exact absurd h hs
+  · simp at h
+  · simp at h
+
+
+/-! ### A pass that aborts goes on exactly like a fresh pass on the aborted state -/
+
+theorem with_lastFc_none {s : State} (h : s.lastFc = none) : ({ s with lastFc := none } : State) = s := by
+  cases s; simp_all
+
+theorem afterFc_of_none {s : State} (h : s.lastFc = none) : afterFc s = (s, false) := by
+  unfold afterFc
+  simp only [h, with_lastFc_none h]
+
+theorem handleFc_misc (s : State) (fc : FcFrame) :
+    (s.handleFc fc).lastFc = s.lastFc ∧ (s.handleFc fc).pendingFc = s.pendingFc ∧
+    (s.handleFc fc).rl = s.rl ∧ (s.handleFc fc).cfg = s.cfg ∧ (s.handleFc fc).txQueue = s.txQueue := by
+  unfold handleFc
+  grind [stopSending, State.error, emit, startRxFcTimer]
+
+theorem stopSending_misc (s : State) (ok : Bool) :
+    (s.stopSending ok).lastFc = s.lastFc ∧ (s.stopSending ok).pendingFc = s.pendingFc ∧
+    (s.stopSending ok).rl = s.rl ∧ (s.stopSending ok).cfg = s.cfg := by
+  unfold stopSending
+  cases h : s.active <;> simp [emit]
+
+theorem afterFc_misc (s : State) :
+    (afterFc s).1.lastFc = none ∧ (afterFc s).1.pendingFc = s.pendingFc ∧
+    (afterFc s).1.rl = s.rl ∧ (afterFc s).1.cfg = s.cfg := by
+  unfold afterFc
+  cases hfc : s.lastFc with
+  | none => simp
+  | some fc =>
+    simp only []
+    split
+    · have := stopSending_misc ({ s with lastFc := none } : State) false
+      exact ⟨this.1, this.2.1, this.2.2.1, this.2.2.2⟩
+    · have := handleFc_misc ({ s with lastFc := none } : State) fc
+      exact ⟨this.1, this.2.1, this.2.2.1, this.2.2.2.1⟩
+
+theorem afterTimeout_misc (s : State) :
+    (afterTimeout s).lastFc = s.lastFc ∧ (afterTimeout s).pendingFc = s.pendingFc ∧
+    (afterTimeout s).rl = s.rl ∧ (afterTimeout s).cfg = s.cfg := by
+  unfold afterTimeout
+  split
+  · exact stopSending_misc (s.error .FlowControlTimeout) false
+  · simp
+
+theorem afterTimeout_idem (s : State) : afterTimeout (afterTimeout s) = afterTimeout s := by
+  by_cases h : s.timerFc.timedOut s.now = true
+  · have : afterTimeout s = (s.error .FlowControlTimeout).stopSending false := by simp [afterTimeout, h]
+    rw [this]
+    have hs := (stopSending_idle (s.error .FlowControlTimeout) false).2.2.2.2.1
+    unfold afterTimeout
+    simp [Timer.timedOut, hs]
+  · have : afterTimeout s = s := by simp [afterTimeout, h]
+    rw [this, this]
+
+/-- after the mailbox and the N_Bs check, the rest of the pass is a fresh pass on that state -/
+theorem txPhases_continue (s : State) (a : Nat) (h : (afterFc s).2 = false) :
+    txPhases s a = txPhases (afterTimeout (afterFc s).1) a := by
+  have hl : (afterTimeout (afterFc s).1).lastFc = none := by
+    rw [(afterTimeout_misc _).1]; exact (afterFc_misc s).1
+  conv => rhs; unfold txPhases
+  rw [afterFc_of_none hl]
+  simp only [afterTimeout_idem]
+  unfold txPhases
+  simp [h]
+
+theorem processTx_continue (s : State) (hp : s.pendingFc = false) (h : (afterFc s).2 = false) :
+    s.processTx = (afterTimeout (afterFc s).1).processTx := by
+  have hm := afterFc_misc s
+  have ht := afterTimeout_misc (afterFc s).1
+  have hp' : (afterTimeout (afterFc s).1).pendingFc = false := by rw [ht.2.1, hm.2.1, hp]
+  rw [processTx_eq_of_not_pending s hp, processTx_eq_of_not_pending _ hp', txPhases_continue s _ h]
+  unfold allowedNow
+  rw [ht.2.2.1, ht.2.2.2, hm.2.2.1, hm.2.2.2]
+
+/-! ### Aborts -/
+
+/-- (a) Overflow: the request is failed, the error logged after it, nothing is sent -/
+theorem processTx_overflow (s : State) (fc : FcFrame) (hp : s.pendingFc = false)
+    (hfc : s.lastFc = some fc) (h2 : fc.status = 2) :
+    s.processTx = ((({ s with lastFc := none } : State).stopSending false).error .Overflow, none, false) := by
+  rw [processTx_eq_of_not_pending s hp]
+  unfold txPhases afterFc
+  simp [hfc, h2]
+
+theorem afterFc_wait_unsupported (s : State) (fc : FcFrame) (hfc : s.lastFc = some fc)
+    (hs : s.txState ≠ .idle) (h1 : fc.status = 1) (ht : s.timerFc.timedOut s.now = false)
+    (hw : s.cfg.wftmax = 0) :
+    afterFc s = (({ s with lastFc := none } : State).error .UnsupportedWaitFrame, false) := by
+  unfold afterFc
+  have : ¬ fc.status = 2 := by omega
+  simp only [hfc, this, if_false]
+  rw [handleFc_wait_unsupported ({ s with lastFc := none } : State) fc hs h1 ht hw]
+
+theorem afterFc_wait_max (s : State) (fc : FcFrame) (hfc : s.lastFc = some fc)
+    (hs : s.txState ≠ .idle) (h1 : fc.status = 1) (ht : s.timerFc.timedOut s.now = false)
+    (hw : s.cfg.wftmax ≠ 0) (hc : s.wftCnt ≥ s.cfg.wftmax) :
+    afterFc s =
+      ((({ s with lastFc := none } : State).error .MaximumWaitFrameReached).stopSending false, false) := by
+  unfold afterFc
+  have : ¬ fc.status = 2 := by omega
+  simp only [hfc, this, if_false]
+  rw [handleFc_wait_max ({ s with lastFc := none } : State) fc hs h1 ht hw hc]
+
+theorem afterFc_wait_ok (s : State) (fc : FcFrame) (hfc : s.lastFc = some fc)
+    (hs : s.txState = .waitFc ∨ s.txState = .transmitCf) (h1 : fc.status = 1)
+    (ht : s.timerFc.timedOut s.now = false) (hc : s.wftCnt < s.cfg.wftmax) :
+    afterFc s =
+      ({ s with lastFc := none, wftCnt := s.wftCnt + 1, txState := .waitFc,
+                timerFc := { start := some s.now, timeout := s.cfg.tFc } }, false) := by
+  unfold afterFc
+  have : ¬ fc.status = 2 := by omega
+  simp only [hfc, this, if_false]
+  rw [handleFc_wait_ok ({ s with lastFc := none } : State) fc hs h1 ht hc]
+
+/-- (d) N_Bs expiry: whatever non-Overflow frame is in the mailbox, it is not honoured -/
+theorem afterFc_late (s : State) (hs : s.txState ≠ .idle) (ht : s.timerFc.timedOut s.now = true)
+    (h2 : ∀ fc, s.lastFc = some fc → fc.status ≠ 2) :
+    afterFc s = ({ s with lastFc := none }, false) := by
+  unfold afterFc
+  cases hfc : s.lastFc with
+  | none => rfl
+  | some fc =>
+    simp only [h2 fc hfc, if_false]
+    rw [handleFc_late ({ s with lastFc := none } : State) fc hs ht]
+
+theorem afterTimeout_late (s : State) (hs : s.txState ≠ .idle) (ht : s.timerFc.timedOut s.now = true)
+    (h2 : ∀ fc, s.lastFc = some fc → fc.status ≠ 2) :
+    afterTimeout (afterFc s).1 =
+      (({ s with lastFc := none } : State).error .FlowControlTimeout).stopSending false := by
+  rw [afterFc_late s hs ht h2]
+  unfold afterTimeout
+  simp only []
+  rw [if_pos ht]
+
+
+/-! ### Quiet passes, next message, progress -/
+
+theorem afterTimeout_of_not_timedOut {s : State} (h : s.timerFc.timedOut s.now = false) : afterTimeout s = s := by
+  simp [afterTimeout, h]
+
+theorem timedOut_of_stopped {t : Timer} (h : t.start = none) (now : Nat) : t.timedOut now = false := by
+  simp [Timer.timedOut, h]
+
+/-- a pass with an empty mailbox and no N_Bs expiry: only the state machine runs -/
+theorem processTx_quiet (s : State) (hp : s.pendingFc = false) (hfc : s.lastFc = none)
+    (ht : s.timerFc.timedOut s.now = false) (ha : s.txState ≠ .idle → s.active.isSome) :
+    s.processTx = finish (fsm (afterDepleted s) (allowedNow s)) := by
+  rw [processTx_eq_of_not_pending s hp]
+  unfold txPhases
+  rw [afterFc_of_none hfc]
+  simp only [afterTimeout_of_not_timedOut ht, Bool.false_eq_true, if_false]
+  by_cases hi : s.txState = .idle
+  · simp [hi]
+  · have := ha hi
+    cases hact : s.active with
+    | none => simp [hact] at this
+    | some r => simp
+
+/-- WAIT_FC with nothing in the mailbox and the deadline not reached: nothing happens at all -/
+theorem processTx_waitFc_quiet (s : State) (r : Req) (hs : s.txState = .waitFc) (hp : s.pendingFc = false)
+    (hfc : s.lastFc = none) (ht : s.timerFc.timedOut s.now = false) (ha : s.active = some r)
+    (hd : r.depleted = false) : s.processTx = (s, none, false) := by
+  rw [processTx_quiet s hp hfc ht (by simp [ha])]
+  have : afterDepleted s = s := by
+    rw [afterDepleted_eq]; simp [depletedCond, ha, hd]
+  rw [this]
+  unfold fsm finish
+  simp only [hs]
+  split <;> rfl
+
+/-- IDLE with a non-empty queue: the pass takes the head of the queue and starts it -/
+theorem processTx_next_message (s : State) (r : Req) (rest : List Req) (hs : s.txState = .idle)
+    (hp : s.pendingFc = false) (hfc : s.lastFc = none) (ht : s.timerFc.start = none)
+    (hq : s.txQueue = r :: rest) (hd : r.depleted = false) :
+    s.processTx =
+      finish ((({ s with txQueue := rest, active := some r } : State).startTx r (allowedNow s)).1,
+              (({ s with txQueue := rest, active := some r } : State).startTx r (allowedNow s)).2, false) := by
+  rw [processTx_quiet s hp hfc (timedOut_of_stopped ht _) (by simp [hs])]
+  have : afterDepleted s = s := by
+    rw [afterDepleted_eq]; simp [depletedCond, hs]
+  rw [this]
+  unfold fsm
+  simp only [hs, hq]
+  unfold readTxQueue
+  simp [hd, hs]
+
+/-- TRANSMIT_CF with an empty mailbox: the pass is `transmitCf` plus the limiter accounting -/
+theorem processTx_cf_pass (s : State) (r : Req) (hs : s.txState = .transmitCf) (hp : s.pendingFc = false)
+    (hfc : s.lastFc = none) (ht : s.timerFc.start = none) (ha : s.active = some r)
+    (hd : r.depleted = false) : s.processTx = finish (s.transmitCf (allowedNow s)) := by
+  rw [processTx_quiet s hp hfc (timedOut_of_stopped ht _) (by simp [ha])]
+  have : afterDepleted s = s := by
+    rw [afterDepleted_eq]; simp [depletedCond, ha, hd]
+  rw [this, fsm_cf s _ hs]
+
+/-- Progress in TRANSMIT_CF: once STmin has elapsed and the limiter lets the frame through, the
+    pass raises, ends the message, or hands out a Consecutive Frame and strictly decreases what
+    remains to be sent. -/
+theorem transmitCf_progress (s : State) (a bs : Nat) (r : Req) (hb : s.remoteBs = some bs)
+    (ha : s.active = some r) (hd : r.depleted = false) (ht : s.timerStmin.timedOut s.now = true)
+    (hl : cfPayloadLen s r ≤ a) (hdl : s.txPrefixLen + 2 ≤ s.cfg.txDl) :
+    (s.transmitCf a).1.exc.isSome ∨ (s.transmitCf a).1.txState = .idle ∨
+    (∃ msg r', (s.transmitCf a).2.1 = some msg ∧ (s.transmitCf a).1.active = some r' ∧
+      r'.remaining < r.remaining ∧ r'.id = r.id ∧ r'.size = r.size) := by
+  rw [transmitCf_eq s a bs r hb ha]
+  simp only [ht, hl, and_self, if_true]
+  have hrem : 1 ≤ r.remaining := by
+    simp only [Req.depleted, Bool.or_eq_false_iff, decide_eq_false_iff_not] at hd
+    unfold Req.remaining; omega
+  have hn : 1 ≤ cfPayloadLen s r := by unfold cfPayloadLen; omega
+  obtain ⟨c1, c2, c3⟩ := Req.consume_spec r (cfPayloadLen s r)
+  have hs1 := consumeActive_fst s r (cfPayloadLen s r) false
+  generalize (s.consumeActive r (cfPayloadLen s r) false).1 = s1 at hs1 ⊢
+  generalize hlog : (s.consumeActive r (cfPayloadLen s r) false).1.log = l1 at hs1
+  generalize hcons : r.consume (cfPayloadLen s r) false = c at c1 c2 c3 hs1 ⊢
+  obtain ⟨r', res⟩ := c
+  cases res with
+  | none => left; simp [State.raise]
+  | some payload =>
+    obtain ⟨d1, d2, d3, d4⟩ := c3 payload rfl
+    simp only at c1 c2 d1 d2 d4 hs1 ⊢
+    have hact : s1.active = some r' := by rw [hs1]
+    unfold cfTail cfSend
+    by_cases hpl : payload.length > 0
+    · simp only [hpl, if_true]
+      cases hm : makeTxMsg s1.cfg s1.addr (s1.addr.tx.txId .physical)
+          (s1.addr.tx.txPrefix ++ [u8 (0x20 + s1.txSeq)] ++ payload) with
+      | none => left; simp [State.raise]
+      | some msg =>
+        simp only [Bool.false_eq_true, if_false]
+        by_cases hdep : r'.depleted = true
+        · right; left
+          simp only [hdep, if_true]
+          split <;> exact (stopSending_idle _ _).1
+        · right; right
+          simp only [hdep, Bool.false_eq_true, if_false]
+          refine ⟨msg, r', ?_, ?_, ?_, c2, c1⟩
+          · split <;> rfl
+          · split <;> simp [startRxFcTimer, hact]
+          · unfold Req.remaining; rw [c1, d1]; unfold Req.remaining at hrem; omega
+    · have h0 : payload.length = 0 := by omega
+      have hdep := d4 (by omega)
+      right; left
+      simp only [hpl, if_false, Bool.false_eq_true, hdep, if_true]
+      split <;> exact (stopSending_idle _ _).1
+
+/-! ### Timers, overrun after a smaller mid-block BS, pass-level progress, loops -/
+
+theorem Timer_timedOut_iff (t : Timer) (now : Nat) :
+    t.timedOut now = true ↔ ∃ t0, t.start = some t0 ∧ (now - t0 > t.timeout ∨ t.timeout = 0) := by
+  unfold Timer.timedOut
+  cases t.start <;> simp
+
+theorem timedOut_of_zero {t : Timer} {t0 : Nat} (h0 : t.timeout = 0) (hs : t.start = some t0) (now : Nat) :
+    t.timedOut now = true := by
+  rw [Timer_timedOut_iff]; exact ⟨t0, hs, Or.inr h0⟩
+
+/-- the frame that completes (or overruns) the granted block is followed by WAIT_FC, or by idle
+    when it was the last frame of the message -/
+theorem transmitCf_block_end (s : State) (allowed bs : Nat) (hb : s.remoteBs = some bs) (h0 : bs ≠ 0)
+    (hc : s.txBlockCnt + 1 ≥ bs) (ho : (s.transmitCf allowed).2.1.isSome) :
+    (s.transmitCf allowed).1.txState = .idle ∨ (s.transmitCf allowed).1.txState = .waitFc := by
+  unfold transmitCf at *
+  grind (splits := 30) [consumeActive_fst, stopSending, State.error, emit, State.raise, startRxFcTimer,
+    Timer.startAt, Timer.stop]
+
+/-- after a mid-block ContinueToSend with a block size not above the frames already sent in
+    the block, exactly one more Consecutive Frame goes out before the sender waits -/
+theorem transmitCf_overrun (s : State) (allowed bs : Nat) (hb : s.remoteBs = some bs) (h0 : bs ≠ 0)
+    (hc : s.txBlockCnt ≥ bs) (ho : (s.transmitCf allowed).2.1.isSome) :
+    (s.transmitCf allowed).1.txState = .idle ∨ (s.transmitCf allowed).1.txState = .waitFc :=
+  transmitCf_block_end s allowed bs hb h0 (by omega) ho
+
+/-- when the block ends the N_Bs timer is started -/
+theorem transmitCf_waitFc_timer (s : State) (allowed : Nat) (hs : s.txState = .transmitCf)
+    (h : (s.transmitCf allowed).1.txState = .waitFc) :
+    (s.transmitCf allowed).1.timerFc = { start := some s.now, timeout := s.cfg.tFc } := by
+  unfold transmitCf at *
+  grind (splits := 30) [consumeActive_fst, stopSending, State.error, emit, State.raise, startRxFcTimer,
+    Timer.startAt, Timer.stop]
+
+theorem finish_progress (x : State × Option CanMsg × Bool) :
+    ((finish x).1.exc = x.1.exc ∧ (finish x).1.txState = x.1.txState ∧ (finish x).1.active = x.1.active) ∧
+    ((finish x).1.exc.isSome ∨ (finish x).2.1 = x.2.1) := by
+  unfold finish
+  split
+  · simp_all
+  · split <;> simp_all
+
+/-- progress of a whole `processTx` pass in TRANSMIT_CF (empty mailbox) -/
+theorem processTx_cf_progress (s : State) (r : Req) (hw : TxWf s) (hs : s.txState = .transmitCf)
+    (hp : s.pendingFc = false) (hfc : s.lastFc = none) (ha : s.active = some r) (hd : r.depleted = false)
+    (ht : s.timerStmin.timedOut s.now = true) (hl : cfPayloadLen s r ≤ (allowedNow s))
+    (hdl : s.txPrefixLen + 2 ≤ s.cfg.txDl) :
+    s.processTx.1.exc.isSome ∨ s.processTx.1.txState = .idle ∨
+    (∃ msg r', s.processTx.2.1 = some msg ∧ s.processTx.1.active = some r' ∧
+      r'.remaining < r.remaining ∧ r'.id = r.id ∧ r'.size = r.size) := by
+  obtain ⟨_, w2, w3, _, _, _⟩ := hw
+  have hfcs : s.timerFc.start = none := w2 (by simp [hs])
+  obtain ⟨bs, hb⟩ : ∃ bs, s.remoteBs = some bs := by
+    have := (w3 hs).2
+    cases h : s.remoteBs with
+    | none => simp [h] at this
+    | some bs => exact ⟨bs, rfl⟩
+  rw [processTx_cf_pass s r hs hp hfc hfcs ha hd]
+  obtain ⟨⟨f1, f2, f3⟩, f4⟩ := finish_progress (s.transmitCf (allowedNow s))
+  rcases transmitCf_progress s (allowedNow s) bs r hb ha hd ht hl hdl with p | p | ⟨msg, r', p1, p2, p3⟩
+  · left; rw [f1]; exact p
+  · right; left; rw [f2]; exact p
+  · rcases f4 with f4 | f4
+    · left; exact f4
+    · right; right
+      exact ⟨msg, r', by rw [f4]; exact p1, by rw [f3]; exact p2, p3⟩
+
+/-! ### The loops of `process()` keep the invariants -/
+
+/-- what a state predicate must tolerate to survive `process()` -/
+structure LoopStable (P : State → Prop) : Prop where
+  clock : ∀ (s : State) (dt : Nat) (rest : List (Nat × CanMsg)), P s → P { s with inbox := rest, now := s.now + dt }
+  emit : ∀ (s : State) (e : Ev), P s → P (s.emit e)
+  chk : ∀ (s : State), P s → P s.checkTimeoutsRx
+  rx : ∀ (s : State) (m : CanMsg), P s → P (s.processRx m).1
+  tx : ∀ (s : State), P s → P s.processTx.1
+  rl : ∀ (s : State) (l : Limiter), P s → P { s with rl := l }
+
+theorem rxLoop_stable {P : State → Prop} (hP : LoopStable P) (doTx : Bool) (s : State) (st : Stats)
+    (inbox : List (Nat × CanMsg)) (h : P s) : P (rxLoop doTx s st inbox).1 := by
+  fun_induction rxLoop doTx s st inbox with
+  | case1 s st =>
+    exact hP.chk _ (hP.emit _ _ (by simpa using hP.clock s 0 [] h))
+  | case2 s st dt m rest s1 s2 st2 hme st3 s3 fr st4 hx =>
+    have := hP.rx s2 m (hP.chk _ (hP.emit _ _ (hP.clock s dt rest h)))
+    rw [hx] at this; exact this
+  | case3 s st dt m rest s1 s2 st2 hme st3 s3 imm fr hx st4 =>
+    have := hP.rx s2 m (hP.chk _ (hP.emit _ _ (hP.clock s dt rest h)))
+    rw [hx] at this; exact this
+  | case4 s st dt m rest s1 s2 st2 hme st3 s3 imm fr hx st4 h1 h2 ih =>
+    have := hP.rx s2 m (hP.chk _ (hP.emit _ _ (hP.clock s dt rest h)))
+    rw [hx] at this; exact ih this
+  | case5 s st dt m rest s1 s2 st2 hme h1 =>
+    exact hP.chk _ (hP.emit _ _ (hP.clock s dt rest h))
+  | case6 s st dt m rest s1 s2 st2 hme h1 ih =>
+    exact ih (hP.chk _ (hP.emit _ _ (hP.clock s dt rest h)))
+
+theorem txLoop_stable {P : State → Prop} (hP : LoopStable P) (f : Nat) (s : State) (n : Nat) (h : P s) :
+    P (txLoop f s n).1 := by
+  fun_induction txLoop f s n with
+  | case1 => exact h
+  | case2 f s n s1 out imm hx he =>
+    have := hP.tx s h; rw [hx] at this; exact this
+  | case3 f s n s1 out he s2 n2 hm hx =>
+    have h1 := hP.tx s h; rw [hx] at h1
+    have : P s2 := by
+      cases out with
+      | none => simp at hm; rw [← hm.1]; exact h1
+      | some m => simp at hm; rw [← hm.1]; exact hP.emit _ _ h1
+    exact this
+  | case4 f s n s1 out imm hx he s2 n2 hm h2 h3 ih =>
+    have h1 := hP.tx s h; rw [hx] at h1
+    have : P s2 := by
+      cases out with
+      | none => simp at hm; rw [← hm.1]; exact h1
+      | some m => simp at hm; rw [← hm.1]; exact hP.emit _ _ h1
+    exact ih this
+  | case5 f s n s1 out imm hx he s2 n2 hm h2 h3 =>
+    have h1 := hP.tx s h; rw [hx] at h1
+    have : P s2 := by
+      cases out with
+      | none => simp at hm; rw [← hm.1]; exact h1
+      | some m => simp at hm; rw [← hm.1]; exact hP.emit _ _ h1
+    exact this
+
+theorem processLoop_stable {P : State → Prop} (hP : LoopStable P) (f : Nat) (doRx doTx : Bool) (s : State)
+    (st : Stats) (h : P s) : P (processLoop f doRx doTx s st).1 := by
+  have key1 : ∀ (dT c : Bool) (s0 s2 : State) (st st1 : Stats) (rr : Bool),
+      (if c = true then rxLoop dT s0 st s0.inbox else (s0, st, false)) = (s2, st1, rr) → P s0 → P s2 := by
+    intro dT c s0 s2 st st1 rr he h0
+    cases c with
+    | true =>
+      have := rxLoop_stable hP dT s0 st s0.inbox h0
+      simp only [if_true] at he
+      rw [he] at this; exact this
+    | false =>
+      simp at he
+      rw [← he.1]; exact h0
+  have key2 : ∀ (d : Bool) (s1 s' : State) (st1 st' : Stats) (run oof : Bool),
+      (if d = true then
+        match txLoop s1.txFuel s1 st1.sent with
+        | (s, n, run, oof) => (s, { st1 with sent := n }, run, oof)
+       else (s1, st1, false, false)) = (s', st', run, oof) → P s1 → P s' := by
+    intro d s1 s' st1 st' run oof he h1
+    cases d with
+    | true =>
+      have := txLoop_stable hP s1.txFuel s1 st1.sent h1
+      simp only [if_true] at he
+      generalize txLoop s1.txFuel s1 st1.sent = r at this he
+      obtain ⟨a, b, c, d⟩ := r
+      simp at he
+      rw [← he.1]; exact this
+    | false =>
+      simp at he
+      rw [← he.1]; exact h1
+  fun_induction processLoop f doRx doTx s st with
+  | case1 => exact h
+  | case2 f doRx doTx s st sw s2 st1 rr hx1 s1 s' st' run oof hx2 he =>
+    exact key2 _ _ _ _ _ _ _ hx2 (hP.rl _ _ (key1 _ _ _ _ _ _ _ hx1 h))
+  | case3 f doRx doTx s st sw s2 st1 rr hx1 s1 s' st' run he hx2 =>
+    exact key2 _ _ _ _ _ _ _ hx2 (hP.rl _ _ (key1 _ _ _ _ _ _ _ hx1 h))
+  | case4 f doRx doTx s st sw s2 st1 rr hx1 s1 s' st' run oof hx2 he ho hc ih =>
+    exact ih (key2 _ _ _ _ _ _ _ hx2 (hP.rl _ _ (key1 _ _ _ _ _ _ _ hx1 h)))
+  | case5 f doRx doTx s st sw s2 st1 rr hx1 s1 s' st' run oof hx2 he ho hc =>
+    exact key2 _ _ _ _ _ _ _ hx2 (hP.rl _ _ (key1 _ _ _ _ _ _ _ hx1 h))
+
+/-- any `LoopStable` predicate is kept by a whole `process()` call -/
+theorem process_stable {P : State → Prop} (hP : LoopStable P) (s : State) (doRx doTx : Bool) (h : P s) :
+    P (s.process doRx doTx).1 :=
+  processLoop_stable hP _ _ _ _ _ h
+
+theorem TxWf_loopStable : LoopStable TxWf where
+  clock := fun _ _ _ h => h
+  emit := fun _ _ h => h
+  chk := TxWf_checkTimeoutsRx
+  rx := TxWf_processRx
+  tx := TxWf_processTx
+  rl := fun _ _ h => h
+
+theorem SepInv_loopStable (t : Nat) : LoopStable (fun s => SepInv s t) where
+  clock := fun _ _ _ h => ⟨Nat.le_trans h.1 (Nat.le_add_right _ _), h.2⟩
+  emit := fun _ _ h => h
+  chk := fun s h => SepInv_checkTimeoutsRx s t h
+  rx := fun s m h => SepInv_processRx s m t h
+  tx := fun s h => SepInv_processTx s t h
+  rl := fun _ _ h => h
+
+end Isotp.Fc
+
